@@ -355,12 +355,18 @@ def inv_c08(tracks, differential=True, skip=()):
         return []
     ann, keys = active_regionprops(tracks)
     keys = [k for k in keys if k not in skip]
+    # the position feature of tracks with a segmentation is segmentation-derived whatever the
+    # annotator calls it: judge it under the key the registry names (not under the key the
+    # annotator believes it manages), as long as that key is a registered feature
+    reg_pos = tracks.features.position_key
+    if isinstance(reg_pos, str) and reg_pos in tracks.features and reg_pos not in skip and reg_pos not in keys:
+        keys = keys + [reg_pos]
     if not keys:
         return []
     bad = []
     g = tracks.graph
     sc = [1.0] * (seg.ndim - 1) if tracks.scale is None else [float(s) for s in tracks.scale[1:]]
-    pos_key, area_key = ann.pos_key, ann.area_key
+    pos_key, area_key = (reg_pos if isinstance(reg_pos, str) else ann.pos_key), ann.area_key
     for n in sorted(g.nodes):
         t = int(tracks.get_time(n))
         idx = np.nonzero(seg[t] == n)
